@@ -1,19 +1,24 @@
 #!/bin/sh
-# Runs every seeded change under /verif/seeded against the quick check of the property it breaks
-# (and optional extra properties given in meta.json "also_check"), undoing it afterwards.
-cd /verif
+# usage: tools/seeded_sweep.sh [name-glob]
+# Runs every seeded change under seeded/ (or those matching the glob, e.g. 'C0*') against the quick
+# check of the property it breaks, undoing it afterwards. The repository the change is applied to is
+# $VERIF_REPO (default /repo) - the same one ./check builds against. Writes seeded/RESULTS[.<glob>].md.
+cd "$(dirname "$0")/.."
+REPO=${VERIF_REPO:-/repo}
+GLOB=${1:-*}
 OUT=seeded/RESULTS.md
+[ "$GLOB" != "*" ] && OUT="seeded/RESULTS.$(echo "$GLOB" | tr -d '*?[]').md"
 echo "| seeded change | property | check result |" > $OUT.tmp
 echo "|---|---|---|" >> $OUT.tmp
-for d in seeded/*/; do
+for d in seeded/$GLOB/; do
   n=$(basename $d)
   [ -f $d/patch.diff ] || continue
   id=$(python3 -c "import json; print(json.load(open('$d/meta.json'))['property'])")
-  git -C /repo apply /verif/$d/patch.diff || { echo "| $n | $id | patch does not apply |" >> $OUT.tmp; continue; }
-  res=$(timeout 900 ./check $id --tier quick 2>&1 | grep -E "^(VIOLATION|OK|KNOWN)" | head -2 | tr '\n' ' ')
-  git -C /repo checkout -- .
+  git -C $REPO apply $(pwd)/$d/patch.diff || { echo "| $n | $id | patch does not apply |" >> $OUT.tmp; continue; }
+  res=$(timeout 900 ./check $id --tier quick 2>&1 | grep -E "^(VIOLATION|OK)" | head -1)
+  git -C $REPO checkout -- .
+  [ -z "$res" ] && res="NO RESULT (timeout or crash)"
   echo "| $n | $id | $res |" >> $OUT.tmp
-  python3 tools/record_mutant.py $n /tmp/mut/out/$(echo $n | tr - /) "./check $id --tier quick: $res" > /dev/null
+  echo "$n: $res"
 done
 mv $OUT.tmp $OUT
-cat $OUT
